@@ -661,6 +661,11 @@ func (lit *LiteralReader) Size() int64 {
 }
 
 func (lit *LiteralReader) Read(b []byte) (int, error) {
+	if lit.dec != nil {
+		// The literal data follows the CRLF of its header: we're in the
+		// middle of a line again
+		lit.dec.crlf = false
+	}
 	n, err := lit.r.Read(b)
 	if err == io.EOF {
 		lit.cancel()
